@@ -126,6 +126,9 @@ func init() {
 			}
 			o.Single = rapid.IntRange(0, 5).Draw(t, "single") == 0
 			o.RuleNames = rapid.IntRange(0, 2).Draw(t, "rulenames") == 1
+			// termination needs no meaning: a third of the grammars also recurse where a combinator
+			// tests for failure (P -> P+ b | a, a left-recursive first Choice alternative, ...)
+			o.Unstratified = rapid.IntRange(0, 2).Draw(t, "unstratified") == 0
 			g := GenGrammar(t, o)
 			return &GCase{G: g, In: GenInput(t, g, o), MemoAll: rapid.Bool().Draw(t, "memoAll"), PreLen: pre}
 		},
